@@ -322,3 +322,90 @@ impl Out {
         fs::write(Path::new(outdir).join(format!("stats_{}.json", variant)), st).unwrap();
     }
 }
+
+// ---------------------------------------------------------------- run-length layout (independent restatement of the format)
+// Number of 4-bit code units the published format uses for a value: 3 payload bits per unit, at least one unit.
+pub fn rl_units(v: usize) -> usize {
+    let bl = if v == 0 { 1 } else { 64 - (v as u64).leading_zeros() as usize };
+    (bl + 2) / 3
+}
+
+// Maximal runs (adjacent runs merged, empty ones dropped) of a run list in increasing order.
+pub fn rl_maximal(runs: &[(usize, usize)]) -> Vec<(usize, usize)> {
+    let mut v: Vec<(usize, usize)> = Vec::new();
+    for (s, l) in runs.iter() {
+        if *l == 0 {
+            continue;
+        }
+        match v.last_mut() {
+            Some(last) if last.0 + last.1 == *s => last.1 += *l,
+            _ => v.push((*s, *l)),
+        }
+    }
+    v
+}
+
+// The maximal runs grouped by the 64-unit block the format puts them in (a run never straddles two blocks).
+pub fn rl_blocks(runs: &[(usize, usize)]) -> Vec<Vec<(usize, usize)>> {
+    let mut blocks: Vec<Vec<(usize, usize)>> = Vec::new();
+    let mut used = 64usize;
+    let mut tail = 0usize;
+    for (s, l) in rl_maximal(runs) {
+        let need = rl_units(s - tail) + rl_units(l - 1);
+        if used + need > 64 {
+            blocks.push(Vec::new());
+            used = 0;
+        }
+        used += need;
+        blocks.last_mut().unwrap().push((s, l));
+        tail = s + l;
+    }
+    blocks
+}
+
+// A run list aimed at the block-filling rule: filler runs bring the current block to exactly `64 - need - slack`
+// used units, then comes a run whose gap (or length - 1, if `in_len`) is `v` and which needs `need` units, then
+// `after` more runs. slack = -1: the run misses the block by one unit; 0: fits exactly; 1: one unit to spare.
+// `lead` full blocks of short runs come first.
+pub fn rl_directed(rng: &mut Rng, v: usize, in_len: bool, slack: i64, lead: usize, after: usize) -> (usize, Vec<(usize, usize)>) {
+    let (g, l) = if in_len { (1 + rng.below(7) as usize, v + 1) } else { (std::cmp::max(v, 1), 1 + rng.below(8) as usize) };
+    let need = rl_units(g) + rl_units(l - 1);
+    let fill = 64i64 - need as i64 - slack;
+    let mut runs: Vec<(usize, usize)> = Vec::new();
+    let mut pos = 0usize;
+    let mut push = |runs: &mut Vec<(usize, usize)>, gap: usize, len: usize| {
+        pos += gap;
+        runs.push((pos, len));
+        pos += len;
+    };
+    for _ in 0..(32 * lead) {
+        push(&mut runs, 1 + rng.below(7) as usize, 1 + rng.below(8) as usize);
+    }
+    let mut f = std::cmp::max(fill, 0) as usize;
+    if f % 2 == 1 && f >= 3 {
+        push(&mut runs, 8 + rng.below(56) as usize, 1 + rng.below(8) as usize); // three units
+        f -= 3;
+    }
+    while f >= 2 {
+        push(&mut runs, 1 + rng.below(7) as usize, 1 + rng.below(8) as usize); // two units
+        f -= 2;
+    }
+    push(&mut runs, g, l);
+    for _ in 0..after {
+        let gap = match rng.below(4) { 0 => 1 + rng.below(7), 1 => 8 + rng.below(56), 2 => 64 + rng.below(448), _ => 1 + rng.below(5000) } as usize;
+        let len = match rng.below(3) { 0 => 1, 1 => 1 + rng.below(8), _ => 1 + rng.below(600) } as usize;
+        push(&mut runs, gap, len);
+    }
+    let len = pos + match rng.below(3) { 0 => 0, 1 => 1, _ => rng.below(100) as usize };
+    (len, runs)
+}
+
+// the values at which the number of code units changes (8^k), with their neighbours
+pub fn rl_unit_boundaries(max_exp: u32) -> Vec<usize> {
+    let mut v = Vec::new();
+    for k in 1..=max_exp {
+        let b = 1usize << (3 * k);
+        v.extend_from_slice(&[b - 1, b, b + 1]);
+    }
+    v
+}
